@@ -282,7 +282,18 @@ def correspondence(chk, drv, C):
     worst = 0.0
     excluded = 0
     n_cases = chk.n(72, 600)
+    prof_names = ('CTi', 'kTi', 'deltaRTi', 'CTe', 'kTe', 'deltaRTe', 'kN0', 'deltaRN0')
+    prof_default = {k: getattr(C, k) for k in prof_names}
     for it in range(n_cases):
+        # every second case with profile constants away from their defaults (by default the electron and ion temperature profiles
+        # coincide, so a mix-up is invisible); the boundary value of the property is the ION equilibrium (feq_real)
+        prof = dict(prof_default)
+        if it % 2 == 1:
+            prof = {'CTi': rng.uniform(0.6, 1.4), 'kTi': rng.uniform(0.05, 0.4), 'deltaRTi': rng.uniform(0.8, 3.0),
+                    'CTe': rng.uniform(0.6, 1.4), 'kTe': rng.uniform(0.05, 0.4), 'deltaRTe': rng.uniform(0.8, 3.0),
+                    'kN0': rng.uniform(0.02, 0.1), 'deltaRN0': rng.uniform(1.5, 4.0)}
+        for k_, v_ in prof.items():
+            setattr(C, k_, v_)
         explicit = (it % 3 != 2)
         nul = bool((it // 3) % 2)
         kind = ['cu', 'gu', 'gn', 'cu'][it % 4]
@@ -331,6 +342,8 @@ def correspondence(chk, drv, C):
         dt = float(dt)
         case = {'scheme': 'expl' if explicit else 'impl', 'nulEdge': nul, 'path': kind, 'degrees': degs, 'cells': nc, 'phi_space': phi_space, 'rdom': rdom,
                 'phi': phi_kind, 'f': f_kind, 'B0': B0, 'v': v, 'dt': dt, 'tol': tol, 'omega': omega, 'sub_seed': it}
+        if it % 2 == 1:
+            case['profile_constants'] = prof
         fs = Spline2D(bq, br)
         interp.compute_interpolant(fv.copy(), fs)
         # --- real code
@@ -468,8 +481,73 @@ def correspondence(chk, drv, C):
         chk.count('phi %s' % phi_kind)
         chk.case(('pol', case['scheme'], nul, kind, degs, nc, phi_kind, round(dt, 9)), nontrivial=phi_kind in ('gen', 'rot') and dt != 0,
                  sample={k: case[k] for k in ('scheme', 'nulEdge', 'path', 'degrees', 'cells', 'phi', 'dt')} | {'branches': sorted(branches)} if it < 4 else None)
+    for k_, v_ in prof_default.items():
+        setattr(C, k_, v_)
     chk.notes['excluded_near_boundary_nodes'] = excluded
     chk.notes['worst_model_difference_over_tolerance'] = round(worst, 5)
+
+
+def reuse_cases(chk, C):
+    """the same PoloidalAdvection object and the same Spline2D potential object over several steps, the potential re-filled IN PLACE
+    between the steps (what gridStep does with its per-z splines, and what a time loop that keeps one phi spline does): every step
+    must give what a fresh operator with a fresh spline object gives (bit for bit: same arithmetic)"""
+    from pygyro.splines.splines import Spline2D
+    from pygyro.advection.advection import PoloidalAdvection
+    rng = chk.rng
+    for it in range(chk.n(6, 40)):
+        explicit = it % 2 == 0
+        nul = bool((it // 2) % 2)
+        kind = ['cu', 'gu', 'gn'][it % 3]
+        degs = (3, 3) if kind == 'cu' else (rng.randint(2, 4), rng.randint(2, 4))
+        nc = (rng.randint(max(4, degs[0] + 1), 6), rng.randint(3, 5))
+        rdom = rng.choice([(1.0, 3.0), (0.5, 2.5)])
+        bq, br, q, r, phi, interp, fv, omega = build(rng, C, kind, degs, nc, rdom, 'gen', 'random')
+        va, vr, lip = drift_stats(phi, q, r, 1.0)
+        dt = float(rng.choice([-1.0, 1.0]) * (0.2 / lip if lip > 1e-6 else 0.3))
+        v = rng.uniform(-3, 3)
+        eta = [r, q, np.linspace(0, 1, 4), np.linspace(0, 1, 4)]
+        case = {'scheme': 'expl' if explicit else 'impl', 'nulEdge': nul, 'path': kind, 'degrees': degs, 'cells': nc, 'dt': dt, 'v': v}
+        try:
+            adv = PoloidalAdvection(eta, [bq, br], C, nulEdge=nul, explicitTrap=explicit, tol=1e-10)
+            f = fv.copy()
+            outs, refs = [], []
+            for k, scale in enumerate((1.0, -0.7, 0.0, 1.3)):
+                if k:
+                    phi.coeffs[:] = base_coeffs * scale          # the SAME spline object, new contents
+                else:
+                    base_coeffs = np.array(phi.coeffs, copy=True)
+                fin = f.copy()
+                with_timeout(20.0, lambda: adv.step(f, dt, phi, v))
+                outs.append(f.copy())
+                fresh_phi = Spline2D(*phi.basis)
+                fresh_phi.coeffs[:] = phi.coeffs
+                fresh = PoloidalAdvection(eta, [bq, br], C, nulEdge=nul, explicitTrap=explicit, tol=1e-10)
+                g = fin.copy()
+                with_timeout(20.0, lambda: fresh.step(g, dt, fresh_phi, v))
+                refs.append(g)
+                if not np.array_equal(f, g):
+                    chk.fail('C12:operator-reuse', 'step %d on a re-used operator with the potential re-filled in place differs from a fresh operator '
+                             '(max difference %.3e)' % (k, float(np.max(np.abs(f - g)))), dict(case, step=k, potential_scale=scale))
+                    break
+            # memory layouts the caller may use for f: a strided window of a larger array, Fortran order
+            base = refs[0]
+            big = np.full((fv.shape[0], 2 * fv.shape[1]), 1.25)
+            fwin = big[:, ::2]
+            fwin[:] = fv
+            ffor = np.asfortranarray(fv.copy())
+            phi.coeffs[:] = base_coeffs
+            for nm, arr in (('strided', fwin), ('Fortran-ordered', ffor)):
+                op = PoloidalAdvection(eta, [bq, br], C, nulEdge=nul, explicitTrap=explicit, tol=1e-10)
+                with_timeout(20.0, lambda: op.step(arr, dt, phi, v))
+                if not np.array_equal(np.asarray(arr), base) or not (big[:, 1::2] == 1.25).all():
+                    chk.fail('C12:memory-layout', 'step on a %s array does not give what it gives on a C-contiguous copy' % nm,
+                             dict(case, layout=nm), actual=float(np.max(np.abs(np.asarray(arr) - base))))
+        except Timeout:
+            chk.count('re-use case skipped: iteration not converging')
+        except Exception as e:  # noqa: BLE001
+            chk.fail('C12:step-raises', 'PoloidalAdvection.step raised %s: %s' % (type(e).__name__, str(e)[:120]), case)
+        chk.case(('reuse', it, explicit, nul, kind), nontrivial=True)
+        chk.count('operator re-use sequences')
 
 
 def order_test(chk, C):
@@ -520,6 +598,7 @@ def run(chk):
         correspondence(chk, drv, C)
     finally:
         drv.close()
+    reuse_cases(chk, C)
     order_test(chk, C)
     chk.assumptions = [
         'compute_interpolant is a contract: the model evaluates the coefficients of the real phi spline and of the real interpolant of the old f',
